@@ -155,8 +155,34 @@ func goLit(t types.Type, v *big.Int) string {
 	return ""
 }
 
+// clauseToGo renders an ensures clause as a Go boolean expression (for replay); ok=false if it uses
+// constructs without a run-time meaning.
+func clauseToGo(text string) (string, bool) {
+	body := strings.TrimSpace(text)
+	if m := reLabel.FindStringSubmatch(body); m != nil && !strings.HasPrefix(body, "forall") {
+		body = body[len(m[0]):]
+	}
+	var binders []string
+	if m := reForall.FindStringSubmatch(body); m != nil {
+		for _, b := range strings.Split(m[1], ",") {
+			binders = append(binders, strings.TrimSpace(b))
+		}
+		body = body[len(m[0]):]
+	}
+	for _, bad := range []string{"old(", "allocated(", "iter(", "unchanged(", "isFresh(", "callArg(", "callRet(", "ncalls("} {
+		if strings.Contains(body, bad) {
+			return "", false
+		}
+	}
+	g := rewriteLogic(body)
+	for i := len(binders) - 1; i >= 0; i-- {
+		g = "forallInt(func(" + binders[i] + " int) bool { return " + g + " })"
+	}
+	return g, true
+}
+
 // buildReplayTest: supports functions whose parameters are byte slices, scalars, and structs/pointers to
-// structs of such (nested lists are left empty unless the model pins their length to 0).
+// structs of such (nested lists are zero-filled to the model's length).
 func buildReplayTest(eng *Engine, ct *Contract, nr *namedResult, lens map[string]int64, scal map[string]*big.Int, bytesOf map[string][]byte) (string, bool) {
 	fn := ct.Fn
 	var b strings.Builder
@@ -168,8 +194,14 @@ func buildReplayTest(eng *Engine, ct *Contract, nr *namedResult, lens map[string
 				return l, true
 			}
 		}
+		if _, _, ok := intWidth(t); ok || isBoolType(t) {
+			return goLit(t, new(big.Int)), true // unconstrained in the model
+		}
 		switch ut := t.Underlying().(type) {
 		case *types.Slice:
+			if _, ok := lens[name]; !ok {
+				return "nil", true // unconstrained in the model
+			}
 			if isByteType(ut.Elem()) {
 				if bs, ok := bytesOf[name]; ok {
 					parts := make([]string, len(bs))
@@ -182,7 +214,7 @@ func buildReplayTest(eng *Engine, ct *Contract, nr *namedResult, lens map[string
 			if n, ok := lens[name]; ok && n == 0 {
 				return "nil", true
 			}
-			if n, ok := lens[name]; ok && n <= 4096 {
+			if n, ok := lens[name]; ok && n <= 1<<20 {
 				return fmt.Sprintf("make(%s, %d)", relType(t), n), true
 			}
 			return "", false
@@ -199,12 +231,11 @@ func buildReplayTest(eng *Engine, ct *Contract, nr *namedResult, lens map[string
 			return relType(t) + "{" + strings.Join(fs, ", ") + "}", true
 		case *types.Basic:
 			if isStringType(t) {
-				if n, ok := lens[name]; ok && n <= 4096 {
+				if n, ok := lens[name]; ok && n <= 1<<20 {
 					return fmt.Sprintf("string(make([]byte, %d))", n), true
+				} else if !ok {
+					return `""`, true
 				}
-			}
-			if floatBits(t) > 0 {
-				return "", false
 			}
 		}
 		return "", false
@@ -213,6 +244,9 @@ func buildReplayTest(eng *Engine, ct *Contract, nr *namedResult, lens map[string
 	recvExpr := ""
 	for i, p := range fn.Params {
 		name := p.Name()
+		if name == "" || name == "_" {
+			name = fmt.Sprintf("arg%d", i)
+		}
 		isRecv := i == 0 && fn.Signature.Recv() != nil
 		t := p.Type()
 		var lit string
@@ -220,44 +254,57 @@ func buildReplayTest(eng *Engine, ct *Contract, nr *namedResult, lens map[string
 			if isModified(ct, i) {
 				lit = "new(" + relType(pt.Elem()) + ")"
 			} else {
-				l, ok := build(name, pt.Elem())
+				l, ok := build(p.Name(), pt.Elem())
 				if !ok {
 					return "", false
 				}
 				lit = "&" + l
 			}
 		} else {
-			l, ok := build(name, t)
+			l, ok := build(p.Name(), t)
 			if !ok {
 				return "", false
 			}
 			lit = l
 		}
-		fmt.Fprintf(&b, "\targ%d := %s\n", i, lit)
+		fmt.Fprintf(&b, "\t%s := %s\n\t_ = %s\n", name, lit, name)
 		if isRecv {
-			recvExpr = fmt.Sprintf("arg%d", i)
+			recvExpr = name
 		} else {
-			callArgs = append(callArgs, fmt.Sprintf("arg%d", i))
+			callArgs = append(callArgs, name)
 		}
 	}
 	call := fn.Name() + "(" + strings.Join(callArgs, ", ") + ")"
 	if recvExpr != "" {
 		call = recvExpr + "." + call
 	}
-	b.WriteString("\tdefer func() {\n\t\tif r := recover(); r != nil {\n\t\t\tfmt.Println(\"REPLAY-CONFIRMED panic:\", r)\n\t\t}\n\t}()\n")
+	b.WriteString("\tdefer func() {\n\t\tif r := recover(); r != nil {\n")
+	if safetyKinds[nr.Kind] {
+		b.WriteString("\t\t\tfmt.Println(\"REPLAY-CONFIRMED panic:\", r)\n")
+	} else {
+		b.WriteString("\t\t\tfmt.Println(\"REPLAY-PANIC (the failed clause is about returned values):\", r)\n")
+	}
+	b.WriteString("\t\t}\n\t}()\n")
 	nres := fn.Signature.Results().Len()
 	if nres > 0 {
-		var rs []string
-		for i := 0; i < nres; i++ {
-			rs = append(rs, fmt.Sprintf("r%d", i))
-		}
-		fmt.Fprintf(&b, "\t%s := %s\n", strings.Join(rs, ", "), call)
-		for _, r := range rs {
+		fmt.Fprintf(&b, "\t%s := %s\n", strings.Join(ct.ResultNames, ", "), call)
+		for _, r := range ct.ResultNames {
 			fmt.Fprintf(&b, "\t_ = %s\n", r)
 		}
-		fmt.Fprintf(&b, "\tfmt.Printf(\"REPLAY-RETURNED %%v\\n\", []interface{}{%s})\n", strings.Join(rs, ", "))
+		fmt.Fprintf(&b, "\tfmt.Printf(\"REPLAY-RETURNED %%v\\n\", []interface{}{%s})\n", strings.Join(ct.ResultNames, ", "))
 	} else {
 		fmt.Fprintf(&b, "\t%s\n\tfmt.Println(\"REPLAY-RETURNED\")\n", call)
+	}
+	if nr.Kind == "post" {
+		g, ok := clauseToGo(nr.Clause)
+		if !ok {
+			return "", false
+		}
+		// header names may differ from the source's parameter names
+		for from, to := range ct.renames {
+			g = regexp.MustCompile(`\b`+regexp.QuoteMeta(from)+`\b`).ReplaceAllString(g, to)
+		}
+		fmt.Fprintf(&b, "\tif holds := %s; !holds {\n\t\tfmt.Println(\"REPLAY-CONFIRMED clause violated\")\n\t} else {\n\t\tfmt.Println(\"REPLAY-NOT-CONFIRMED clause holds\")\n\t}\n", g)
 	}
 	b.WriteString("}\n")
 	return b.String(), true
